@@ -15,6 +15,23 @@ CLAIMS = {
         'technique': 'Lean 4 theorem over translator-regenerated code (bv_decide + kernel assembly) + unit differential',
     },
 }
+CLAIMS['C16'] = {
+    'text': ('Theorems sorted_buffer_top_n / tried_best_first: for every capacity and every insertion sequence the model of '
+             'SortedBuffer::add keeps min(N, len) candidates, ascending, every dropped candidate rated no higher than every '
+             'kept one, and candidates are tried in descending order; searchBest_fallback: the tree search of the model is '
+             'exactly "remember scan candidates in that buffer, then access them best first" (perfect matches are accessed '
+             'immediately by construction). Model tied to util.rs/trees.rs by bounded-exhaustive + random differential runs.'),
+    'note': TB,
+    'technique': 'Lean 4 invariant proof by induction over insertion sequences + characterisation theorem of the search; unit differential vs the compiled SortedBuffer/search_best',
+}
+CLAIMS['C19'] = {
+    'text': ('Theorem request_valid: for every non-empty class list (ids may repeat), every outcome of the order/GFP matchers '
+             '(an arbitrary predicate), every core, pid and core count >= 1, the generated request names a configured class '
+             'and no slot or a slot index below that class\'s slot count; Count::{to_count,to_local} are regenerated from '
+             'classes.rs by the translator on every run; request() is tied by a differential run through the real JSON parser.'),
+    'note': TB,
+    'technique': 'Lean 4 theorem over translator-regenerated Count + hand model of request(); unit differential through facet-json',
+}
 
 _PENDING = 'claimed by DESIGN.md; theorem module not yet landed in this revision (work in progress, see DESIGN.md §10 staging)'
 NOT_APPLICABLE = {
